@@ -640,6 +640,16 @@ func classes() []class {
 		{"search.khuge", true, func(e *env, ctx context.Context) error {
 			return drainSearch(sr(e).Search(ctx, &pb.SearchRequest{DatasetId: e.ds, Query: vec(3, 1), K: 100000}))
 		}},
+		// k is a uint32 on the wire: the largest one (a client's "give me everything")
+		{"search.kmax", true, func(e *env, ctx context.Context) error {
+			return drainSearch(sr(e).Search(ctx, &pb.SearchRequest{DatasetId: e.ds, Query: vec(3, 1), K: 4294967295}))
+		}},
+		{"search.kbig", true, func(e *env, ctx context.Context) error {
+			return drainSearch(sr(e).Search(ctx, &pb.SearchRequest{DatasetId: e.ds, Query: vec(3, 1), K: 1 << 30}))
+		}},
+		{"searchparts.kmax", true, func(e *env, ctx context.Context) error {
+			return drainParts(sr(e).SearchPartitions(ctx, &pb.SearchPartitionsRequest{DatasetId: e.ds, PartitionIds: [][]byte{e.parts[0], e.parts[1]}, Query: vec(3, 1), K: 4294967295}))
+		}},
 		{"search.dim", false, func(e *env, ctx context.Context) error {
 			return drainSearch(sr(e).Search(ctx, &pb.SearchRequest{DatasetId: e.ds, Query: vec(5, 1), K: 3}))
 		}},
@@ -675,6 +685,7 @@ type server struct {
 	cmd            *exec.Cmd
 	died           chan string
 	out            []string
+	fatal          string
 	mu             sync.Mutex
 }
 
@@ -691,6 +702,12 @@ func (s *server) start() (bool, string) {
 		for sc.Scan() {
 			l := sc.Text()
 			s.mu.Lock()
+			if s.fatal == "" && (strings.HasPrefix(l, "panic:") || strings.HasPrefix(l, "fatal error")) {
+				s.fatal = l // the runtime's goroutine dump that follows may be longer than what is kept
+			}
+			if os.Getenv("VERIF_NODE_STDERR") != "" {
+				fmt.Fprintln(os.Stderr, l)
+			}
 			s.out = append(s.out, l)
 			if len(s.out) > 300 {
 				s.out = s.out[len(s.out)-300:]
@@ -723,6 +740,12 @@ func (s *server) start() (bool, string) {
 func (s *server) why() string {
 	s.mu.Lock()
 	defer s.mu.Unlock()
+	if s.fatal != "" {
+		if len(s.fatal) > 200 {
+			return s.fatal[:200]
+		}
+		return s.fatal
+	}
 	for i := len(s.out) - 1; i >= 0; i-- {
 		l := s.out[i]
 		if strings.HasPrefix(l, "panic:") || strings.Contains(l, "level=fatal") || strings.HasPrefix(l, "fatal error") || strings.HasPrefix(l, "RUN-ERROR") || strings.Contains(l, "SIGSEGV") || strings.Contains(l, "unexpected fault") {
